@@ -128,6 +128,7 @@ func (v *Verifier) addFile(cf *ContractFile, pkg *types.Package) error {
 		if _, err := ghostSort(g.Type); err != nil {
 			return fmt.Errorf("%s: ghost %s: %v", cf.Path, g.Name, err)
 		}
+		g.Pkg = pkg
 		v.ghosts[g.Name] = g
 	}
 	for _, s := range cf.Specs {
@@ -564,7 +565,7 @@ func (v *Verifier) frameObligation(c *Ctx, fr *Frame, bc *BoundContract, s *Stat
 	}
 	sort.Strings(ks)
 	for _, k := range ks {
-		if !strings.HasPrefix(k, "G:") || allowed[k] {
+		if !strings.HasPrefix(k, "G:") || strings.HasPrefix(k, "G:$") || allowed[k] {
 			continue
 		}
 		hi := c.keys[k]
